@@ -57,6 +57,9 @@ def lexer(raw: str) -> _LEX_STREAM:
     start: int = 0
     is_string: bool = False
     for i, s in enumerate(raw):
+        if is_string and s != '"':
+            # Whitespace and punctuation inside a string literal are part of it
+            continue
         if s.isspace() or s in {')', '(', ',', '=', '"'}:
             val = raw[start:i]
             start = i + 1
